@@ -154,14 +154,73 @@ def corruptions(tier):
   return out
 
 
+CLI_CASES = [
+  ('valid', 'T(1);\nP(x) :- T(x);', 'P', None),
+  ('unbalanced', 'T(1);\nP(x) :- T(x;', 'P', 'parsing'),
+  ('unbound_variable', 'T(1);\nP(x, y) :- T(x);', 'P', 'y'),
+  ('aggregation_without_distinct', 'T(1);\nP(x, s? += 1) :- T(x);', 'P', 'distinct'),
+  ('functor_bad_argument', 'A(1);\nF(x) :- A(x);\nG := F(B: A);\nP(x) :- G(x);', 'P', 'B'),
+  ('recursion_without_base', 'Q(1, 2);\nP(x) :- P(y), Q(y, x);', 'P', 'P'),
+  ('annotation_of_missing', 'T(1);\nP(x) :- T(x);\n@Limit(Nope, 1);', 'P', 'Nope'),
+  ('type_error', 'T(1);\nP(x + "a") :- T(x);', 'P', None),
+  ('undefined_flag_on_command_line', 'T(1);\nP(x) :- T(x);', 'P', 'nope'),
+]
+
+
+def _cli_job(i):
+  from vlib import cli
+  name, body, pred, mention = CLI_CASES[i]
+  engine = '@Engine("sqlite", type_checking: true);\n' if name == 'type_error' else E
+  flags = ['--nope=1'] if name == 'undefined_flag_on_command_line' else []
+  res = []
+  for cmd in ('print', 'run_to_csv'):
+    rc, out, err = cli.run(engine + body, cmd, pred, flags)
+    text = re.sub(r'\x1b\[[0-9;]*m', '', out + err)
+    if name == 'valid':
+      if rc != 0:
+        res.append('%s: a valid program ended with exit code %d: %s' % (cmd, rc, text[-200:]))
+      continue
+    if rc == 0:
+      res.append('%s: exit code 0 for an invalid program; output: %s' % (cmd, out[:200]))
+    elif 'SELECT' in out.upper():
+      res.append('%s: SQL was printed for an invalid program' % cmd)
+    elif 'Traceback' in text:
+      res.append('%s: ended with a traceback instead of a diagnostic: %s' % (cmd, text[-200:]))
+    elif mention and mention.lower() not in text.lower():
+      res.append('%s: diagnostic does not name %r: %s' % (cmd, mention, text[-200:]))
+  return name, res
+
+
+def cli_diagnostics(tier):
+  """The property's last clause on the real tool: `logica.py` reports through its diagnostics, exit code != 0, no SQL."""
+  with multiprocessing.get_context('fork').Pool(len(CLI_CASES)) as pool:
+    rs = pool.map(_cli_job, range(len(CLI_CASES)))
+  out = {'name': 'C19-cli-diagnostics', 'evaluations': 2 * len(rs), 'distinct_nontrivial': 2 * (len(rs) - 1), 'violations': [],
+         'samples': [{'case': CLI_CASES[2][0], 'program': CLI_CASES[2][1]}],
+         'rule': '%d programs (one valid, one per class of invalidity incl. a type error and an undefined command-line '
+                 'flag) through `logica.py <file> print|run_to_csv <pred>` in a subprocess: invalid => exit code != 0, '
+                 'no SELECT on stdout, no traceback, the offender named; valid => exit code 0' % len(rs)}
+  for name, res in rs:
+    for msg in res[:1]:
+      out['violations'].append({'key': 'C19-cli-diagnostics/%s' % name,
+                                'replay': {'obligation': 'C19-cli-diagnostics/%s' % name,
+                                           'clause': 'invalid program => diagnostic, non-zero exit code, no SQL',
+                                           'solver': 'bounded back end (logica.py in a subprocess)',
+                                           'input': {'program': dict((c[0], c[1]) for c in CLI_CASES)[name]},
+                                           'native': {'case': {'case': name}, 'detail': msg, 'clause': 'cli diagnostics'},
+                                           'prop_replay': {'kind': 'corruption', 'name': name}}})
+  return out
+
+
 def run(tier, seed):
-  return [corruptions(tier)] + _std.std_run('C19', tier, seed, schemas_tag=False)
+  return [corruptions(tier), cli_diagnostics(tier)] + _std.std_run('C19', tier, seed, schemas_tag=False)
 
 
 def replay(spec):
   if spec.get('kind') == 'corruption':
     o = corruptions('thorough')
-    bad = [v for v in o['violations'] if v['replay']['obligation'].endswith(spec['name'])]
+    o2 = cli_diagnostics('thorough')
+    bad = [v for v in o['violations'] + o2['violations'] if v['replay']['obligation'].endswith(spec['name'])]
     print('             ', [v['replay']['native']['detail'][:200] for v in bad] or 'holds')
     return not bad
   return _std.std_replay('C19', spec)
